@@ -40,7 +40,7 @@ def run(seed):
 
 
 if __name__ == "__main__":
-    jobs = 2
+    jobs = 3
     with cf.ThreadPoolExecutor(max_workers=jobs) as ex:
         out = dict(ex.map(run, seeds()))
     os.makedirs("/verif/seeded", exist_ok=True)
